@@ -128,6 +128,8 @@ type Sim struct {
 	RunDir    string // for the socket
 
 	Steps    []Step
+	StepAt   []time.Duration // wall offset of each step (not part of the trace)
+	t0       time.Time
 	Log      []LogEntry
 	Procs    []*Proc
 	Deadlock bool
@@ -187,6 +189,7 @@ func (s *Sim) Run() error {
 		s.Timeout = 10 * time.Minute
 	}
 	s.deadline = time.Now().Add(s.Timeout)
+	s.t0 = time.Now()
 	s.inbox = make(chan inMsg, 256)
 	s.byPid = map[int]*Proc{}
 	s.idCount = map[string]int{}
@@ -656,6 +659,7 @@ func (s *Sim) apply(enabled []*Proc, idx int, act Action) error {
 	ev := p.Pending
 	st := Step{N: len(s.Steps), Proc: p.ID, Seq: p.Seq, Site: ev.Site, Op: ev.Op, Path: ev.Path, Act: act, Enabled: len(enabled), Choice: idx}
 	s.Steps = append(s.Steps, st)
+	s.StepAt = append(s.StepAt, time.Since(s.t0))
 	s.Stats.Steps++
 	if len(enabled) >= 2 {
 		s.Stats.ChoicePoints++
